@@ -48,7 +48,8 @@ class Frontend:
 
     def includes(s, lib=None):
         lib = lib or s.lib
-        return ['-I', os.path.join(lib, 'core'), '-I', os.path.join(lib, 'cpu'), '-I', HARNESS]
+        return ['-I', os.path.join(lib, 'core'), '-I', os.path.join(lib, 'cpu'), '-I', os.path.join(lib, 'cuda'),
+                '-I', os.path.join(HARNESS, 'cuda_shim'), '-I', HARNESS]
 
     def fixit(s):
         """clang-14 lacks P0634 (optional typename); let clang repair the scratch copy and insist that the
